@@ -557,3 +557,114 @@ func c02CopierStateFresh(c *Ctx, cp *copier, rule string) {
 		c.check(okAll && nRet > 0, rule, relName(f), f.Pos(), "returns a struct allocated by this call with freshly made memo maps", "the constructor does not return a freshly allocated instance with fresh memo maps ("+why+"): memo state can survive from one copy / stack to the next")
 	}
 }
+
+// c03SamePointerInstalled: in the leaf overlay, a nil pointer field of the base whose pointee type equals the
+// pointee type of the layer's (already deep-copied) pointer receives that very pointer. The copier memoised that
+// pointer for every other reference to the same node, so allocating a twin here splits a shared node in two and
+// opens cycles. Structural form: on the base.IsNil() branch, the path condition of `base.Set(overlay)` is implied
+// by the type equality alone.
+func c03SamePointerInstalled(c *Ctx, rule string) {
+	leaf := c.W.fn("", "overlayer.overlayField")
+	if !c.need(leaf != nil, "overlayer.overlayField") {
+		return
+	}
+	base := ssa.Value(leaf.Params[len(leaf.Params)-2])
+	ov := ssa.Value(leaf.Params[len(leaf.Params)-1])
+	elemTypeOf := func(v ssa.Value) ssa.Value {
+		el, ok := v.(*ssa.Call)
+		if !ok || !el.Call.IsInvoke() || el.Call.Method.Name() != "Elem" {
+			return nil
+		}
+		ty, ok := el.Call.Value.(*ssa.Call)
+		if !ok || calleeFullName(ty) != "(reflect.Value).Type" {
+			return nil
+		}
+		return ty.Call.Args[0]
+	}
+	pb := &predBuilder{name: func(v ssa.Value) string {
+		if b, ok := v.(*ssa.BinOp); ok && b.Op == token.EQL {
+			x, y := elemTypeOf(b.X), elemTypeOf(b.Y)
+			if x == base && y == ov || x == ov && y == base {
+				return "sameElemType"
+			}
+		}
+		return ""
+	}}
+	n := 0
+	for _, b := range leaf.Blocks {
+		ifi, ok := b.Instrs[len(b.Instrs)-1].(*ssa.If)
+		if !ok {
+			continue
+		}
+		cc, ok := ifi.Cond.(*ssa.Call)
+		if !ok || calleeFullName(cc) != "(reflect.Value).IsNil" || cc.Call.Args[0] != base {
+			continue
+		}
+		nilSucc := b.Succs[0]
+		if len(nilSucc.Preds) != 1 {
+			continue
+		}
+		n++
+		// the Set(base, overlay) calls dominated by the nil branch
+		var g formula = fConst{false}
+		found := false
+		for _, i := range allInstrs(leaf) {
+			ci, ok := i.(*ssa.Call)
+			if !ok || calleeFullName(ci) != "(reflect.Value).Set" || ci.Call.Args[0] != base || ci.Call.Args[1] != ov || !nilSucc.Dominates(ci.Block()) {
+				continue
+			}
+			found = true
+			g = fOr{g, pb.pathCond(nilSucc, ci.Block())}
+		}
+		if !found {
+			c.bad(rule, relName(leaf)+"#nil-base", cc.Pos(), "on the nil-base branch the layer's pointer is never installed as it is (base.Set(overlay)): a pointee shared with other references of the same layer is duplicated")
+			continue
+		}
+		fb, fi := map[string]bool{}, map[string]bool{}
+		atomsOf(g, fb, fi)
+		_, counter := forAll(g, nil, func(e env, fv bool) bool { return fv || !e.B["sameElemType"] })
+		c.check(fb["sameElemType"] && counter == "", rule, relName(leaf)+"#nil-base", cc.Pos(), "a nil base pointer with the layer's pointee type receives the layer's (copied, memoised) pointer itself",
+			"with a nil base pointer and equal pointee types the layer's pointer is not always installed as it is ("+counter+"): the field gets a twin of a node that other references of the same layer still share - identical references differ in the result and cycles open")
+	}
+	if n == 0 {
+		c.bad(rule, relName(leaf), leaf.Pos(), "no base.IsNil() branch found in the leaf overlay")
+	}
+}
+
+// c03SliceWindow: the slice handler copies the whole backing array (in.Slice(0, in.Cap()) into
+// out.Slice(0, out.Cap())), so every slice the copier pre-allocates for an input x must have x's capacity;
+// a shorter one makes the element loop index past the end of the output (reflect panics in Config).
+func c03SliceWindow(c *Ctx, cp *copier, rule string) {
+	wholeWindow := false
+	for _, i := range allInstrs(cp.hSlice) {
+		ci, ok := i.(*ssa.Call)
+		if !ok || calleeFullName(ci) != "(reflect.Value).Slice" || len(ci.Call.Args) != 3 {
+			continue
+		}
+		if hi, ok := ci.Call.Args[2].(*ssa.Call); ok && calleeFullName(hi) == "(reflect.Value).Cap" && sameValue(hi.Call.Args[0], ci.Call.Args[0]) && ci.Call.Args[0] == ssa.Value(cp.hSlice.Params[1]) {
+			wholeWindow = true
+		}
+	}
+	if !wholeWindow {
+		c.okTrivial(rule, "copier", cp.hSlice.Pos(), "the slice handler does not copy the input's capacity window: pre-allocated outputs need no capacity agreement")
+		return
+	}
+	n := 0
+	for f := range cp.scc {
+		for _, i := range allInstrs(f) {
+			ci, ok := i.(*ssa.Call)
+			if !ok || calleeFullName(ci) != "reflect.MakeSlice" {
+				continue
+			}
+			n++
+			ln, okL := ci.Call.Args[1].(*ssa.Call)
+			cp2, okC := ci.Call.Args[2].(*ssa.Call)
+			good := okL && okC && calleeFullName(ln) == "(reflect.Value).Len" && calleeFullName(cp2) == "(reflect.Value).Cap" && sameValue(ln.Call.Args[0], cp2.Call.Args[0])
+			c.check(good, rule, relName(f)+"#makeslice", ci.Pos(), "the pre-allocated slice has the input's length and capacity",
+				"the slice handler copies the input's whole capacity window, but this output slice is made with ("+canon(ci.Call.Args[1])+", "+canon(ci.Call.Args[2])+"): for an input with cap > len the element loop runs past the end of the output and reflect panics inside Config")
+		}
+	}
+	if n == 0 {
+		c.bad(rule, "copier", cp.hSlice.Pos(), "no reflect.MakeSlice found in the copier")
+	}
+}
